@@ -92,9 +92,15 @@ struct to_integer_result {
 template <integral Int, to_integer_options Options = to_integer_options{}>
 [[nodiscard]] constexpr auto to_integer(string_view str, Int base = Int(10)) noexcept -> to_integer_result<Int>
 {
-    auto const length        = str.size();
+    auto const length    = str.size();
+    auto const makeError = [str](auto err) { return to_integer_result<Int>{.end = str.data(), .error = err}; };
+
+    // the overflow checker divides by the base
+    if (base < Int(2) or base > Int(36)) {
+        return makeError(to_integer_error::invalid_input);
+    }
+
     auto const wouldOverflow = detail::overflow_checker<Int, Options.check_overflow>{base};
-    auto const makeError     = [str](auto err) { return to_integer_result<Int>{.end = str.data(), .error = err}; };
     auto const parseDigit    = [](int ch) -> Int {
         if (etl::isdigit(ch) != 0) {
             return static_cast<Int>(ch - int{'0'});
